@@ -308,7 +308,8 @@ class Engine:
         v = z3.Real(name)
         self.inputs[name] = v
         if self.fixed is not None and name in self.fixed:
-            self.add(v == lift(float(self.fixed[name])))
+            ex = getattr(self, 'fixed_exact', None) or {}
+            self.add(v == (z3.RealVal(ex[name]) if name in ex else lift(float(self.fixed[name]))))
         if lo is not None:
             self.add(v >= lift(lo))
         if hi is not None:
@@ -335,9 +336,17 @@ class Engine:
 
     def model_values(self, model):
         out = {}
+        exact = {}
+        self.notes.pop('_exact', None)
         for name, v in self.inputs.items():
             val = model.eval(v, model_completion=True)
             out[name] = z3_to_py(val)
+            if z3.is_rational_value(val) and not z3.is_int_value(val):
+                f = val.as_fraction()
+                if float(f) != f:                      # not representable in binary64: keep the exact value for the concolic re-run
+                    exact[name] = '%d/%d' % (f.numerator, f.denominator)
+        if exact:
+            self.notes['_exact'] = exact
         return out
 
     # -- main loop --------------------------------------------------------------------------------
